@@ -296,6 +296,19 @@ def pool_cases(tier):
                            [Leaf("x", (1, 2, 2, 2))], lambda T, K, name=name: getattr(f, name)(T["x"], 2), functions=fns))
         cases.append(VCase("nn.functional." + name, {"op": "nn.functional." + name, "shape": (1, 1, 2, 2), "kernel": 2, "stride": 1, "padding": 1, "dilation": 1, "int_args": True},
                            [Leaf("x", (1, 1, 2, 2))], lambda T, K, name=name: getattr(f, name)(T["x"], 2, 1, 1, 1), functions=fns, max_paths=5000))
+    # pooling ties: the input repeats its operand's elements, so windows hold equal maxima on every path; whichever valid subgradient the
+    # kernel picks, the operand must receive exactly the window's upstream gradient once (mass g_w, not m * g_w for m tied maxima)
+    for rep, k, s, p in [([0, 0, 1, 1], 2, 2, 0), ([0, 0, 0], 3, 1, 1), ([0, 1, 1, 0], 2, 1, 0), ([0, 0, 1, 1, 1], 3, 2, 1), ([1, 0, 0, 1], 4, 1, 0)]:
+        nsrc = max(rep) + 1
+        cases.append(VCase("nn.functional.max_pool1d", {"op": "nn.functional.max_pool1d", "ties": "input repeats operand elements %s" % rep, "kernel": k, "stride": s, "padding": p, "dilation": 1},
+                           [Leaf("a", (1, 1, nsrc))], lambda T, K, rep=rep, k=k, s=s, p=p: f.max_pool1d(T["a"][:, :, rep], k, s, p, 1),
+                           functions=(NF_ + "max_pool1d", K_ + "max_pool1d_backward", K_ + "max_backward"), max_paths=2500))
+    for rows, cols, k, s in [([0, 0], [0, 0], (2, 2), (1, 1)), ([0, 0, 1], [0, 1, 1], (2, 2), (1, 1)), ([0, 1, 1, 0], [0, 0], (2, 2), (2, 2)), ([0, 0, 0], [0, 0, 0], (3, 3), (1, 1)),
+                             ([0, 0, 0, 0, 0], [0, 0, 0, 0, 0], (5, 5), (5, 5))]:
+        nr, nc = max(rows) + 1, max(cols) + 1
+        cases.append(VCase("nn.functional.max_pool2d", {"op": "nn.functional.max_pool2d", "ties": "input repeats operand rows %s cols %s" % (rows, cols), "kernel": k, "stride": s},
+                           [Leaf("a", (1, 1, nr, nc))], lambda T, K, rows=rows, cols=cols, k=k, s=s: f.max_pool2d(T["a"][:, :, rows][:, :, :, cols], k, s),
+                           functions=(NF_ + "max_pool2d", K_ + "max_pool2d_backward", K_ + "max_backward"), max_paths=2500))
     for cls, sh, args in ((m.MaxPool1d, (1, 1, 5), (2,)), (m.AvgPool1d, (1, 2, 5), (3, 1, 1)), (m.MaxPool2d, (1, 1, 3, 4), (2,)), (m.AvgPool2d, (1, 1, 4, 3), ((2, 1), (1, 2), (1, 0)))):
         cases.append(VCase("nn." + cls.__name__, {"op": "nn." + cls.__name__, "shape": sh, "args": args}, [Leaf("x", sh)],
                            lambda T, K, cls=cls, args=args: cls(*args)(T["x"]), functions=("synapgrad.nn.layers.%s.forward" % cls.__name__,)))
@@ -419,8 +432,38 @@ def dropout_cases(tier):
     return cases
 
 
+def flag_variants(cases, tier):
+    """every differentiable input *that requires grad* receives its VJP whatever the other inputs' flags are: the functional forms with
+    each single input frozen, and with only the first input tracked (each-value coverage of the configuration fields in quick)"""
+    import copy
+    out, seen = [], {}
+    for c in cases:
+        if not c.name.startswith("nn.functional.") or "requires_grad" in c.key or c.expect != "vjp":
+            continue
+        k = len(c.leaves)
+        if k < 2 or not all(l.requires_grad for l in c.leaves):
+            continue
+        if tier != "thorough":
+            sn = seen.setdefault(c.name, set())
+            new = {(kk, repr(v)) for kk, v in c.key.items()} - sn
+            if not new:
+                continue
+            sn |= new
+        sets = [tuple(j != i for j in range(k)) for i in range(k)] + ([tuple(j == 0 for j in range(k))] if k >= 3 else [])
+        for fl in sets:
+            v = copy.copy(c)
+            v.leaves = [Leaf(l.name, l.shape, l.domain, r, l.layout) for l, r in zip(c.leaves, fl)]
+            v.key = dict(c.key, requires_grad=list(fl))
+            out.append(v)
+    return out
+
+
 def all_cases(tier="quick"):
+    from .tensor_ops import layout_variants
     cases = []
     for g in (activation_cases, loss_cases, linear_cases, conv_cases, pool_cases, fold_cases, batchnorm_cases, dropout_cases):
         cases.extend(g(tier))
+    base = list(cases)
+    cases.extend(flag_variants(base, tier))
+    cases.extend(layout_variants(base, tier))
     return cases
